@@ -838,11 +838,16 @@ func (r Stack) Reset() {
 reset is a private method called by [Stack.Reset].
 */
 func (r *stack) reset() {
-	var ct int = 0
-	for i := r.ulen(); i > 0; i-- {
-		ct++
-		r.remove(i - 1)
-	}
+	cfg, _ := r.config()
+
+	r.lock()
+	defer r.unlock()
+
+	// keep nothing but the config slice; nil
+	// slices (which remove cannot address) go too.
+	var R stack = make(stack, 0)
+	R = append(R, cfg)
+	*r = R
 }
 
 /*
